@@ -71,7 +71,14 @@ Enc ==
 Panic == l <= Len(Rec) /\ E.ev = "panic" /\ Fail("the engine panicked") /\ l' = l + 1
 Reset == l <= Len(Rec) /\ E.ev \in {"reset", "noise"} /\ l' = l + 1     \* noise: another word composed in the same context
 
-Next == PList \/ FList \/ Enc \/ Panic \/ Reset
+\* the facts about the dictionary that MC_FixedList!DataOK assumes (consecutive-only de-duplication)
+DictFacts ==
+    /\ l <= Len(Rec) /\ E.ev = "dictfacts"
+    /\ (Focus = "C15" => /\ Require(E.exact_first = 0, "C15: a dictionary table lists a longer hit before the typed word's own entry (the list would repeat the typed word)")
+                          /\ Require(E.split_dups = 0, "C15: a dictionary table lists a word twice with another hit in between (the list would repeat it)"))
+    /\ l' = l + 1
+
+Next == PList \/ FList \/ Enc \/ Panic \/ Reset \/ DictFacts
 Spec == Init /\ [][Next]_l
 
 Accepted ==
